@@ -71,12 +71,61 @@ pub struct ProgCapCase {
 struct Sampler {
     inner: clvmr::chia_dialect::ChiaDialect,
     peak: std::cell::Cell<(usize, usize, usize)>,
+    /// bytes copied to the heap by substr calls on inline (small-integer) atoms whose slice is not itself
+    /// inline-representable: the mechanism of known finding F5 (counted and not limit-checked)
+    f5_bytes: std::cell::Cell<usize>,
 }
 
 impl Sampler {
     fn sample(&self, a: &Allocator) {
         let p = self.peak.get();
         self.peak.set((p.0.max(a.atom_count()), p.1.max(a.pair_count()), p.2.max(a.heap_size())));
+    }
+}
+
+impl Sampler {
+    fn note_inline_substr(&self, a: &Allocator, args: clvmr::NodePtr) {
+        use clvmr::allocator::SExp;
+        let mut items = Vec::new();
+        let mut cur = args;
+        while let SExp::Pair(f, r) = a.sexp(cur) {
+            items.push(f);
+            cur = r;
+        }
+        if items.len() < 2 || items.len() > 3 || items.iter().any(|n| matches!(a.sexp(*n), SExp::Pair(..))) {
+            return;
+        }
+        if a.small_number(items[0]).is_none() {
+            return; // heap-stored parent: the slice is a free view
+        }
+        let bytes = a.atom(items[0]).as_ref().to_vec();
+        let idx = |n: clvmr::NodePtr| -> Option<usize> {
+            let b = a.atom(n);
+            let b = b.as_ref();
+            if b.len() > 4 || b.first().is_some_and(|x| x & 0x80 != 0) {
+                return None;
+            }
+            Some(b.iter().fold(0usize, |acc, x| (acc << 8) | *x as usize))
+        };
+        let Some(start) = idx(items[1]) else { return };
+        let end = if items.len() == 3 {
+            match idx(items[2]) {
+                Some(e) => e,
+                None => return,
+            }
+        } else {
+            bytes.len()
+        };
+        if start > end || end > bytes.len() {
+            return;
+        }
+        let slice = &bytes[start..end];
+        // inline-representable = minimal encoding of a non-negative integer below 2^26 (empty = 0)
+        let inline = slice.is_empty()
+            || (slice[0] & 0x80 == 0 && !(slice[0] == 0 && (slice.len() == 1 || slice[1] & 0x80 == 0)) && slice.len() <= 4 && slice.iter().fold(0u64, |acc, x| (acc << 8) | *x as u64) < (1 << 26));
+        if !inline {
+            self.f5_bytes.set(self.f5_bytes.get() + slice.len());
+        }
     }
 }
 
@@ -101,6 +150,9 @@ impl clvmr::dialect::Dialect for Sampler {
     }
     fn op(&self, a: &mut Allocator, op: clvmr::NodePtr, args: clvmr::NodePtr, max_cost: u64, ext: clvmr::dialect::OperatorSet) -> clvmr::reduction::Response {
         self.sample(a);
+        if a.atom_len(op) == 1 && a.atom(op).as_ref() == [12] {
+            self.note_inline_substr(a, args);
+        }
         let r = self.inner.op(a, op, args, max_cost, ext);
         self.sample(a);
         r
@@ -122,7 +174,7 @@ pub fn test_prog_cap(c: &ProgCapCase) -> Verdict {
     // 1. unconstrained twin: outcome and sampled peaks
     let mut a = Allocator::new();
     let (Ok(p), Ok(e)) = (build(&mut a, &pc.p.prog), build(&mut a, &pc.p.env)) else { return Verdict::discard() };
-    let d = Sampler { inner: clvmr::chia_dialect::ChiaDialect::new(crate::util::flags(pc.flags)), peak: Default::default() };
+    let d = Sampler { inner: clvmr::chia_dialect::ChiaDialect::new(crate::util::flags(pc.flags)), peak: Default::default(), f5_bytes: Default::default() };
     d.sample(&a);
     let r = guard(|| clvmr::run_program::run_program(&mut a, &d, p, e, budget));
     d.sample(&a);
@@ -144,7 +196,7 @@ pub fn test_prog_cap(c: &ProgCapCase) -> Verdict {
         (Ok(p), Ok(e)) => (p, e),
         _ => return Verdict::pass(false).label("cap hit while building the program"),
     };
-    let d = Sampler { inner: clvmr::chia_dialect::ChiaDialect::new(crate::util::flags(pc.flags)), peak: Default::default() };
+    let d = Sampler { inner: clvmr::chia_dialect::ChiaDialect::new(crate::util::flags(pc.flags)), peak: Default::default(), f5_bytes: Default::default() };
     d.sample(&a);
     let r = guard(|| clvmr::run_program::run_program(&mut a, &d, p, e, budget));
     d.sample(&a);
@@ -155,7 +207,13 @@ pub fn test_prog_cap(c: &ProgCapCase) -> Verdict {
         return Verdict::fail(format!("run_program panicked near the caps: {m}\n {}", ctx()));
     }
     if seen.0 as u64 > MAX_ATOMS || seen.1 as u64 > MAX_PAIRS || seen.2 > limit {
-        return Verdict::fail(format!("a count exceeded its cap during the run: observed maxima (atoms,pairs,heap) = {seen:?}\n {}", ctx()));
+        let msg = format!("a count exceeded its cap during the run: observed maxima (atoms,pairs,heap) = {seen:?}\n {}", ctx());
+        // known finding F5 at program level: the excess is explained by substr slices of inline atoms copied to the heap unchecked
+        let f5 = d.f5_bytes.get();
+        if seen.0 as u64 <= MAX_ATOMS && seen.1 as u64 <= MAX_PAIRS && f5 > 0 && seen.2 - limit <= f5 {
+            return Verdict::fail_sig(format!("{msg}\n ({f5} bytes were copied by substr of inline atoms)"), "substr-of-inline-atom-copies-and-counts-slice");
+        }
+        return Verdict::fail(msg);
     }
     let cap_err = matches!(&capped, Out::Err { kind, .. } if kind == "TooManyAtoms" || kind == "TooManyPairs" || kind == "OutOfMemory");
     // the unconstrained run reached a count the capped allocator cannot hold: the capped run must have hit a cap
